@@ -36,7 +36,7 @@ class C20(Prop):
     id = 'C20'
     struct_inputs = False          # explanations are keyed by variable name
     reparse_histories = False      # explain() also reports on the assertions of earlier parse() calls on the object
-    rule_added = '9% of the timed formulas in another unit notation (default unit ms, bounds written in s). 2%: finite samples of 1e308 whose predicate arithmetic overflows to +-inf (verdict exactly -inf at 0, caused by the data). A third of the objects have evaluated and explained an earlier recording that shares the time list with the judged one. 10%: every Boolean connective under both polarities over a range (always(not P), eventually(not P), always(P implies r), ... with P = p(x) OP q(y)). In every run 8 (thorough: 320) long traces of 130..400 samples on which a variable occurring 2-3 times toggles around its thresholds (hundreds of separate intervals per occurrence). 20% of the cases put a temporal operator behind two Boolean filters under a range context (it must explain several disjoint intervals). 12%: a named sub-specification referenced from several places of one assertion (modular specification). 6%: rise/fall over a compound operand behind a window that starts at b >= 1.'
+    rule_added = '14% of the timed formulas under a sampling period of 500 ms, 250 ms or 2 s; 9% in another unit notation (default unit ms, bounds written in s). 2%: finite samples of 1e308 whose predicate arithmetic overflows to +-inf (verdict exactly -inf at 0, caused by the data). A third of the objects have evaluated and explained an earlier recording that shares the time list with the judged one. 10%: every Boolean connective under both polarities over a range (always(not P), eventually(not P), always(P implies r), ... with P = p(x) OP q(y)). In every run 8 (thorough: 320) long traces of 130..400 samples on which a variable occurring 2-3 times toggles around its thresholds (hundreds of separate intervals per occurrence). 20% of the cases put a temporal operator behind two Boolean filters under a range context (it must explain several disjoint intervals). 12%: a named sub-specification referenced from several places of one assertion (modular specification). 6%: rise/fall over a compound operand behind a window that starts at b >= 1.'
     rule = ('random formulas of the fragment the explainer supports (no since/until; arithmetic, predicates, Boolean, '
             'rise/fall, prev/next, bounded and unbounded once/historically/eventually/always; depth<=4; variables '
             'occurring several times) x traces of 2..6 samples on StlDiscreteTimeOfflineSpecification: evaluate(); if '
@@ -362,6 +362,17 @@ class C20(Prop):
             sd = {'text': lang.to_text(f, ivl_printer=lambda i: '[%ss:%ss]' % (lang.num(i[0]), lang.num(i[1]))),
                   'vars': names, 'unit': 'ms'}
             v.info['class:unit-notation'] = 1
+        elif (len(text) + n) % 7 == 0 and not case.get('modular') and any(g[1] is not None for g in lang.walk(f)):
+            # another sampling period: the bounds (numbers of samples) written as durations in s
+            import random as _r
+            from rtverif.props.c08 import Speller, U as _U
+            per = [(500, 'ms'), (2, 's'), (250, 'ms')][(len(text) // 7) % 3]
+            try:
+                sd = {'text': lang.to_text(f, ivl_printer=Speller(_r.Random(0), per[0] * _U[per[1]], 's', 'default').ivl),
+                      'vars': names, 'period': (per[0], per[1], 0.1)}
+                v.info['class:sampling-period'] = 1
+            except ValueError:
+                sd = {'text': text, 'vars': names}
         if case.get('modular'):
             from rtverif.props.c09 import modular_sd
             sd = modular_sd(case['modular'], names)
